@@ -49,6 +49,11 @@ prop('C15', prefix=['c15'],
             'block <=3, |offset| <=2, <=1 row record, 1 link (thorough: <=2 records, |offset| <=3); move_columns_action block <=2, |offset| <=2, '
             '<=1 descriptor, 1 link (thorough: <=2 descriptors, block <=3, |offset| <=3)',
      outside='cell content re-entry, array-formula split checks, values, ranges under moves')
+prop('C16', prefix=['c16'],
+     bounds='ref_is_in_area: any in-grid i32 and sheet ids; cut/copy: formula cell, reference targets, cut area and paste offsets inside rows 1..=120 x '
+            'columns 1..=30 (offsets of either sign), same or other target sheet, reference on the cut sheet or another; ranges with absolute corners',
+     outside='the moved-formula printer for operators, functions, arrays and separators (known to drop parentheses), paste orchestration in clipboard.rs, '
+             'conditional-format ranges and defined names under cut, values, the parser that builds the nodes')
 prop('C22', prefix=['c22'],
      bounds='all 16384 column numbers (one symbolic i32); every ASCII column string of length 0..=4',
      outside='A1/R1C1 printing+parsing of whole references, sheet-name quoting vs the lexer, non-ASCII text')
@@ -65,6 +70,10 @@ prop('C33', prefix=['c33'],
      bounds='CF coordinates: row/column/position/count/offset any i32 inside the grid, sheet ids any u32; links: 2 links at any distinct in-grid '
             'cells, insert/delete any position and count, block move <=2 by |offset| <=2',
      outside='CF rule formulas (parser), sqref strings, clear-removes-link and its undo, cut/paste orchestration')
+prop('C34', prefix=['c34'],
+     bounds='reference/range token texts assembled from symbolic pieces: optional leading space, no / unquoted 2-letter / quoted sheet prefix, endpoints '
+            '[$]letters{1,2}[$]digits{1,2} | [$]letters | [$]digits, single or a:b; arbitrary ASCII text of length <=4 (<=6 thorough) for "touches only $ and case"',
+     outside='the tokenizer inside cycle_reference (which references the cursor touches, cursor arithmetic), non-ASCII text, longer tokens')
 
 
 def log(*a):
